@@ -664,6 +664,9 @@ func (m *mappedFile) lookup(name string) (v *atomic.Uint64, headOff, head uint32
 //
 // If name is already recorded in the file, newCounter returns the existing counter.
 func (m *mappedFile) newCounter(name string) (v *atomic.Uint64, m1 *mappedFile, err error) {
+	if len(name) == 0 {
+		return nil, nil, fmt.Errorf("counter name empty")
+	}
 	if len(name) > maxNameLen {
 		return nil, nil, fmt.Errorf("counter name too long")
 	}
